@@ -58,7 +58,10 @@ def allPairs (n : Nat) (p : Nat → Nat → Bool) : Bool :=
 The round trip `invmapfn(mapfn d)` is ill conditioned: an absolute error `δ` in the probability moves the
 exact inverse by up to `2 δ e^{κ d}` (κ = 2 Haldane, 4 Kosambi; `Lemmas/MapFnCond`).  The oracle therefore
 allows `2 δ₀ 3^⌈κ d⌉` (`3^⌈κ d⌉ ≥ e^{κ d}`) with `δ₀ = 2^-50` (8 ulp of 1) for the float evaluation of
-`mapfn`, on top of the usual tolerance for `invmapfn` itself, and asks nothing once `4 δ₀ 3^⌈κ d⌉ > 1`. -/
+`mapfn`, the same amount again for the float evaluation of `invmapfn` (rounding of `1 - 2r` / `2r` is amplified
+by the same factor), `10^-13` absolute and `10^-9` relative on top, and asks nothing once `4 δ₀ 3^⌈κ d⌉ > 1`.
+Near zero the absolute part is what counts: a first-order "shortcut" `r = d` is off by `d²` after the round
+trip, i.e. it is rejected for every `d` above `4·10^-7`. -/
 
 def delta0 : Rat := 1 / 1125899906842624        -- 2^-50
 
@@ -68,7 +71,7 @@ def condBound (kappa : Nat) (a : Rat) : Rat := 3 ^ ((kappa : Rat) * a).ceil.toNa
 /-- tolerance of the round trip at distance `a`; `none` = binary64 cannot resolve `1 - 2r` any more -/
 def invTol (kappa : Nat) (a : Rat) : Option Tol :=
   let c := condBound kappa a
-  if 4 * delta0 * c ≤ 1 then some ⟨1 / 1000000000, 1 / 10000000000 + 2 * delta0 * c⟩ else none
+  if 4 * delta0 * c ≤ 1 then some ⟨1 / 1000000000, 1 / 10000000000000 + 4 * delta0 * c⟩ else none
 
 /-- on the implementation's `r = mapfn(d)` and `dinv = invmapfn(r)`: zero ↦ zero, ∞ ↦ ½, range [0, ½],
     monotone, undone by the inverse (to the conditioning of the round trip) -/
